@@ -44,6 +44,17 @@ def sfoldB (sm : List Rng) (a : STMoc) (t : Nat) : Bool :=
 def obsB (obs : List (Rng × Rng)) (t s : Nat) : Bool :=
   obs.any fun o => decide (o.1.1 ≤ t ∧ t < o.1.2) && decide (o.2.1 ≤ s ∧ s < o.2.2)
 
+/-- `RangeMOC2::min_index_left`: start of the first time range of the first element. -/
+def minIndexLeft (m : STMoc) : Option Nat := m.head?.bind fun e => e.1.head?.map (·.1)
+
+/-- `RangeMOC2::max_index_left`: EXCLUSIVE end of the last time range of the last element. -/
+def maxIndexLeft (m : STMoc) : Option Nat := m.getLast?.bind fun e => e.1.getLast?.map (·.2)
+
+/-- `RangeMOC2::compute_n_ranges`: number of time ranges + number of space ranges, over all elements. -/
+def nRangesST : STMoc → Nat
+  | [] => 0
+  | e :: t => e.1.length + e.2.length + nRangesST t
+
 /-- First instant of an element. -/
 def firstInstant (e : List Rng × List Rng) : Nat := firstStart e.1
 
